@@ -57,12 +57,12 @@ def run(ck):
         ck.write_generated("Errno.lean", gen_errno.generate(REPO, ck.work))
         ck.write_generated("FileType.lean", gen_filetype.generate(REPO, ck.work))
     except Exception as e:
-        ck.machinery_error("translator failed: %r" % (e,)); return
+        ck.translator_failed("translator failed: %r" % (e,))
     try:
         import gen_charclass
         ck.write_generated("CharClass.lean", gen_charclass.generate(REPO, ck.work))
     except Exception as e:
-        ck.machinery_error("translator gen_charclass failed: %r" % (e,)); return
+        ck.translator_failed("translator gen_charclass failed: %r" % (e,))
     if not ck.build_driver(): return
     if not ck.prove(["ZixModel.Properties.C15", "ZixModel.Properties.C15Link", "ZixModel.Properties.C15LinkInst", "ZixModel.Properties.C15Race"]):
         ck.report_proof_failure("theorems about the filesystem model / regenerated file-type table no longer build")
